@@ -810,7 +810,7 @@ static int app_collect(ares_fd_events_t *evs, int max_events)
     gsbits = ares_getsock(app_channel, gs, ARES_GETSOCK_MAXNUM);
   }
   /* random starting point so that "which fd first" varies */
-  start = (int)vh_below(&sim_rng, (uint32_t)nfds);
+  start = (int)vh_below(&seg_rng, (uint32_t)nfds);
   for (i = 0; i < nfds && nev < max_events; i++) {
     int fd = fds[(i + start) % nfds];
     int wr = 0, ww = 0, r, w;
@@ -1167,6 +1167,8 @@ static void app_run(void)
     if (t > sim_now_us) {
       sim_now_us = t;
     }
+    /* the application asks for the hint again after waking up (possibly late: deadlines overdue) */
+    mon_timer_check_fwd();
     /* scripted actions due */
     {
       int i;
